@@ -7,7 +7,10 @@ import numpy as np
 from harness.core import use_repo, Divergence
 
 VALUES = {'plain': {'float': [-1.5, float('nan'), 0.5, 2.5], 'int': [-2, 0, 7, 3], 'text': ['aa', 'b', 'cc', 'aa']},
-          'edge': {'float': [float('inf'), -0.25, float('-inf'), 1e300], 'int': [-1, 32767, -32768, -1], 'text': ['x y', 'a,b', 'Zz', 'nan?']}}
+          'edge': {'float': [float('inf'), -0.25, float('-inf'), 1e300], 'int': [-1, 32767, -32768, -1], 'text': ['x y', 'a,b', 'Zz', 'nan?']},
+          # narrow storage types: float32 with a NaN, int16 with negative values
+          'narrow': {'float': [-1.5, float('nan'), 0.5, 2.5], 'int': [-2, 0, 7, -300], 'text': ['aa', 'b', 'cc', 'aa']}}
+DTYPES = {'narrow': {'float': 'float32', 'int': 'int16'}}
 EXT = {'csv': 'csv', 'fits_table': 'fits', 'votable': 'xml', 'hdf5': 'hdf5', 'gridded_fits': 'fits'}
 LABEL = {'csv': 'Comma-separated table', 'fits_table': 'FITS Table', 'votable': 'VO Table', 'hdf5': 'HDF5', 'gridded_fits': 'FITS (1 component/HDU)'}
 NAMES = {'float': 'colf', 'int': 'coli', 'text': 'colt'}
@@ -40,7 +43,9 @@ def check_one(cfg, exp):
     from glue.core.state import GlueSerializer, GlueUnSerializer
     shape = (4,) if cfg['shape'] == 'table' else (2, 2)
     V = VALUES[cfg.get('vals', 'plain')]
-    cols = {'float': np.array(V['float']).reshape(shape), 'int': np.array(V['int']).reshape(shape), 'text': np.array(V['text']).reshape(shape)}
+    DT = DTYPES.get(cfg.get('vals', 'plain'), {})
+    cols = {'float': np.array(V['float'], dtype=DT.get('float', 'float64')).reshape(shape),
+            'int': np.array(V['int'], dtype=DT.get('int', 'int64')).reshape(shape), 'text': np.array(V['text']).reshape(shape)}
     d = Data(label='src')
     for k in cfg['cols']:
         d.add_component(cols[k], NAMES[k])
